@@ -311,7 +311,9 @@ func c08K5InvalidMessage(r *Run) {
 	reason, _ := constIntVal(hme.Call.Args[3])
 	want := int64(-1)
 	if o := p.Pkg("").Types.Scope().Lookup("ResultReasonInvalidMessage"); o != nil {
-		if cst, ok := o.(interface{ Val() interface{ ExactString() string } }); ok {
+		if cst, ok := o.(interface {
+			Val() interface{ ExactString() string }
+		}); ok {
 			_ = cst
 		}
 	}
@@ -424,9 +426,13 @@ func c16H2(r *Run) {
 	p := r.P
 	r.Rule("C16.H2", "every go handleConn is preceded by wg.Add(1); handleConn starts with defer wg.Done()", 2)
 	n := 0
+	var wrappers []*ssa.Function
 	for _, g := range goSites(p, "kmipserver") {
-		if g.target != "kmipserver.Server.handleConn" {
+		if g.target != "kmipserver.Server.handleConn" && g.inner != "kmipserver.Server.handleConn" {
 			continue
+		}
+		if g.wrapper != nil {
+			wrappers = append(wrappers, g.wrapper)
 		}
 		n++
 		key := fnKey(g.fn) + "/go-handleConn"
@@ -456,20 +462,51 @@ func c16H2(r *Run) {
 		r.Unk("C16.H2", "kmipserver.Server.handleConn/done", token.NoPos, "anchor missing")
 		return
 	}
-	first := false
-	for _, in := range hc.Blocks[0].Instrs {
-		if d, ok := in.(*ssa.Defer); ok {
-			first = callID(&d.Call).is("sync", "WaitGroup", "Done")
-			break
+	startsWithDone := func(fn *ssa.Function) bool {
+		for _, in := range fn.Blocks[0].Instrs {
+			if d, ok := in.(*ssa.Defer); ok {
+				return callID(&d.Call).is("sync", "WaitGroup", "Done")
+			}
+			if _, ok := in.(*ssa.Call); ok {
+				return false // a call before the defer
+			}
 		}
-		if _, ok := in.(*ssa.Call); ok {
-			break // a call before the defer
-		}
+		return false
 	}
-	if first {
-		r.OK("C16.H2", "kmipserver.Server.handleConn/done", hc.Pos(), "defer wg.Done() before any call that could return early or panic")
+	countDone := func(fn *ssa.Function) int {
+		c := 0
+		allInstrs(fn, func(in ssa.Instruction) {
+			if cc := callOf(in); cc != nil && callID(cc).is("sync", "WaitGroup", "Done") {
+				recv := cc.Args[0]
+				if u, ok := recv.(*ssa.UnOp); ok && u.Op == token.MUL {
+					recv = u.X
+				}
+				if fa, ok := recv.(*ssa.FieldAddr); ok && typeName(fa.X.Type()) == "Server" {
+					c++
+				}
+			}
+		})
+		return c
+	}
+	// the goroutine's entry function is handleConn itself or a thin closure around it: exactly one of them announces
+	// the end of the goroutine, as its first action
+	first := startsWithDone(hc) && len(wrappers) == 0
+	dones := countDone(hc)
+	for _, w := range wrappers {
+		if startsWithDone(w) && countDone(hc) == 0 {
+			first = true
+		} else if !(startsWithDone(hc) && countDone(w) == 0) {
+			first = false
+		}
+		dones += countDone(w)
+	}
+	if len(wrappers) > 0 && startsWithDone(hc) && dones == 1 {
+		first = true
+	}
+	if first && dones == 1 {
+		r.OK("C16.H2", "kmipserver.Server.handleConn/done", hc.Pos(), "defer wg.Done() is the first action of the connection goroutine, before any call that could return early or panic")
 	} else {
-		r.Bad("C16.H2", "kmipserver.Server.handleConn/done", hc.Pos(), "handleConn does not start with `defer wg.Done()`: an early return or panic before it leaves Shutdown waiting forever")
+		r.Bad("C16.H2", "kmipserver.Server.handleConn/done", hc.Pos(), "the connection goroutine does not start with exactly one `defer wg.Done()` (in handleConn or in the closure that runs it; found %d): an early return or panic before it leaves Shutdown waiting forever, a second Done makes the counter negative", dones)
 	}
 }
 
@@ -727,7 +764,7 @@ func c16H5(r *Run) {
 			r.OK("C16.H5", key, g.in.Pos(), "announces itself with defer c.wg.Done() (Add(%d) for %d goroutines), conn.Close waits on it, and handleConn defers conn.Close before its own wg.Done", addCount(g.fn), spawnedOnWG[g.fn])
 		case donesOnConnWG(g.target):
 			r.Bad("C16.H5", key, g.in.Pos(), "goroutine %s counts itself on the connection's WaitGroup but the accounting is broken (Add=%d, goroutines=%d, Close waits=%v, Close deferred by handleConn=%v)", g.target, addCount(g.fn), spawnedOnWG[g.fn], waits, closeDeferred)
-		case g.target == "kmipserver.Server.handleConn":
+		case g.target == "kmipserver.Server.handleConn" || g.inner == "kmipserver.Server.handleConn":
 			r.OK("C16.H5", key, g.in.Pos(), "joined by srv.wg (H2) which Shutdown waits for")
 		case strings.HasPrefix(g.target, "kmipserver.conn.") && waits:
 			r.OK("C16.H5", key, g.in.Pos(), "conn.Close waits for the connection's loops, and handleConn defers conn.Close")
@@ -803,6 +840,20 @@ func c08K7AcceptLoop(r *Run) {
 						changed = true
 					}
 				}
+			case *ssa.UnOp:
+				if x.Op == token.MUL && isConn[x.X] {
+					isConn[v] = true
+					changed = true
+				}
+			}
+		})
+		// a captured connection variable: the cell it is stored in denotes the connection too
+		allInstrs(sv, func(in ssa.Instruction) {
+			if st, ok := in.(*ssa.Store); ok && isConn[st.Val] && !isConn[st.Addr] {
+				if _, isAlloc := st.Addr.(*ssa.Alloc); isAlloc {
+					isConn[st.Addr] = true
+					changed = true
+				}
 			}
 		})
 	}
@@ -815,6 +866,30 @@ func c08K7AcceptLoop(r *Run) {
 			for _, a := range x.Call.Args {
 				if isConn[a] {
 					spawned = true
+				}
+			}
+			if mc, ok := x.Call.Value.(*ssa.MakeClosure); ok {
+				for _, b := range mc.Bindings {
+					if isConn[b] && thinWrapper(mc.Fn.(*ssa.Function)) != nil {
+						spawned = true
+					}
+				}
+			}
+		case *ssa.MakeClosure:
+			// the connection may be captured only by the closure that is started as its goroutine
+			for _, b := range x.Bindings {
+				if !isConn[b] {
+					continue
+				}
+				started := false
+				for _, ref := range *x.Referrers() {
+					if _, ok := ref.(*ssa.Go); ok {
+						started = true
+					}
+				}
+				if !started {
+					bad = x.Pos()
+					what = "a closure that is not started as the connection's goroutine"
 				}
 			}
 		case *ssa.Call:
